@@ -53,6 +53,7 @@ func countFaults(v *verdict, plan *harness.RunPlan) {
 		inc(f.SrvCancelStep != 0, "server_ctx_cancel")
 		inc(f.RawRespFail, "raw_response_source_failure")
 		inc(f.ErrWithData, "reader_returns_data_and_error")
+		inc(f.SrvCancelAtStart, "server_ctx_cancelled_at_start")
 	}
 }
 
@@ -396,6 +397,7 @@ func (w *worker) runC14(p *harness.Pkg, t *tape.Tape, logOn bool) *verdict {
 	if len(ops) == 0 {
 		return &verdict{pkg: p, plan: plan, counters: map[string]int{"runs_on_package_without_usable_ops": 1}, probes: map[string]int{}}
 	}
+	plan.NilAuth = t.Flip(1, 8, "nil-auth")
 	n := 1 + t.Choose(4, "requests")
 	for i := 0; i < n; i++ {
 		var rp harness.ReqPlan
@@ -406,7 +408,9 @@ func (w *worker) runC14(p *harness.Pkg, t *tape.Tape, logOn bool) *verdict {
 		}
 		f := &rp.Faults
 		f.ReqCutMode = t.Choose(5, "req-cut")
-		switch t.Choose(8, "stream-fault") {
+		switch t.Choose(9, "stream-fault") {
+		case 8:
+			f.SrvCancelAtStart = true
 		case 1:
 			f.ReqReset = true
 		case 2:
@@ -507,6 +511,7 @@ func (w *worker) runC20(p *harness.Pkg, t *tape.Tape, logOn bool) *verdict {
 		return &verdict{pkg: p, plan: plan, counters: map[string]int{"runs_on_package_without_usable_ops": 1}, probes: map[string]int{}}
 	}
 	plan.HashEvery = 16
+	plan.NilAuth = t.Flip(1, 10, "nil-auth")
 	si := t.Choose(len(c20Sizes), "concurrency")
 	if si >= 6 && t.Choose(3, "really-large") != 0 {
 		si = t.Choose(6, "concurrency")
@@ -526,7 +531,9 @@ func (w *worker) runC20(p *harness.Pkg, t *tape.Tape, logOn bool) *verdict {
 		if t.Flip(1, 2, "faults") {
 			f.ReqCutMode = t.Choose(5, "req-cut")
 			f.RespCutMode = t.Choose(5, "resp-cut")
-			switch t.Choose(10, "fault") {
+			switch t.Choose(11, "fault") {
+			case 10:
+				f.SrvCancelAtStart = true
 			case 1:
 				f.Dup = true
 			case 2:
